@@ -60,7 +60,7 @@ class Reader(object):
 
 
 RANGE_BLOCK = 24
-CAND_BLOCK = 12
+CAND_BLOCK = 14
 
 
 def decode_params(r, values, allow_upper=True):
@@ -100,15 +100,19 @@ def decode_range(r, values):
     t, s = r.pick(RTYPES)
     params = decode_params(r, values)
     q = decode_q(r)
-    return {'t': t, 's': s, 'p': params, 'q': q, 'qpos': r.n(3), 'qup': r.n(4) == 3,
-            'ws': [r.pick(WS) for _ in range(4)], 'empty_param': r.n(10) == 9}
+    out = {'t': t, 's': s, 'p': params, 'q': q, 'qpos': r.n(3), 'qup': r.n(4) == 3,
+           'ws': [r.pick(WS) for _ in range(4)], 'empty_param': r.n(10) == 9}
+    # type and subtype tokens are case-insensitive (RFC 9110 8.3.1): a sixth of the ranges is spelt in another case
+    out['tcase'] = r.pick([None, None, None, None, None, 'upper', None, None, None, None, None, 'title'])
+    return out
 
 
 def decode_candidate(r, values):
     t = r.pick(MAINS_W)
     s = r.pick(SUBS_W)
     params = decode_params(r, values, allow_upper=False)
-    return {'t': t, 's': s, 'p': params, 'ws': ['', '', r.pick(WS), r.pick(WS)]}
+    ws = ['', '', r.pick(WS), r.pick(WS)]
+    return {'t': t, 's': s, 'p': params, 'ws': ws, 'tcase': r.pick([None] * 7 + ['upper'])}
 
 
 ACCEPT_SIZE = 8 + 6 * RANGE_BLOCK + 5 * CAND_BLOCK + 16
